@@ -387,11 +387,12 @@ func NewSugarDB(options ...func(sugarDB *SugarDB)) (*SugarDB, error) {
 	}
 
 	if sugarDB.isInCluster() {
+		// Initialise caches before raft starts: restoring a raft snapshot and applying
+		// log entries write to the store, which creates databases and their caches.
+		sugarDB.initialiseCaches()
 		// Initialise raft and memberlist
 		sugarDB.raft.RaftInit(sugarDB.context)
 		sugarDB.memberList.MemberListInit(sugarDB.context)
-		// Initialise caches
-		sugarDB.initialiseCaches()
 	}
 
 	if !sugarDB.isInCluster() {
